@@ -121,6 +121,12 @@ DAMAGE = [
     lambda r: "0.5::0.5::a.\nquery(a).\n",
     lambda r: "a :- a, \\+a.\nquery(a).\n",
     lambda r: "utility(a, %s).\nquery(a).\n" % r.choice(ARGS),
+    # builtins (with and without an arithmetic / type error) as the direct target of query, evidence and subquery
+    lambda r: "query(%s).\n" % r.choice(["X is 1/0", "1 < foo", "X is 1 + 2", "1 =:= sqrt(-1)", "X is Y", "2 > 1", "atom(a)",
+                                          "X = f(X)", "length(L, N)", "between(1, 3, X)", "X is 2 ** 0.5", "X is \"s\" + 1"]),
+    lambda r: "evidence(%s).\nquery(a).\n" % r.choice(["1 =:= sqrt(-1)", "X is 1/0", "1 < foo", "2 > 1", "1 > 2", "a = b"]),
+    lambda r: "q :- subquery(%s, P).\nquery(q).\n" % r.choice(["X is 1 mod 0", "1 < foo", "c", "X is 1/0", "2 > 1"]),
+    lambda r: "q :- findall(X, %s, L).\nquery(q).\n" % r.choice(["X is 1/0", "1 < foo", "(c, X is foo)"]),
 ]
 
 
